@@ -16,7 +16,8 @@ def header_instance(ctx, it, st):
     ref = it.alloc(st, I.InstObj(hci, {
         'class_id': Sym('field', 'class_id'),
         'weight': Sym('field', 'weight'),
-        'body_size': Sym('field', 'body_size'), 'properties': p}))
+        'body_size': Sym('field', 'body_size'), 'properties': p},
+        open_=True))
     return ref, p, pci
 
 
